@@ -319,17 +319,20 @@ pub proof fn bn_lemma_convert_digit_of_@T@(x: @T@, s: @T@)
 """
 
 BU_FROM_U = r"""
-//! fn impl(FromPrimitivefor$BUint<N>)::from_@T@ [ext_trait]
-fn FromPrimitive__from_@T@(int__: @T@) -> /*@{*/(r: /*}@*/Option<Self>/*@{*/)/*}@*/
-    /*@{*/ requires bn_wf(N)
-    ensures (r is Some) == (Self::bn_m() > int__ as int), r matches Some(v) ==> v@ == int__ as int /*}@*/
+//! fn impl(From<@T@>for$BUint<N>)::from [ext_trait=From_@T@]
+// The loop writes only the non-zero digits of `int`, and writes digit i at index i unchecked: it panics (index out of
+// bounds) exactly when some digit at an index >= N is non-zero, i.e. when int >= 2^BITS.  `Self::bn_m() > int` is the
+// weakest precondition; it is implied by `N * $DB >= @TB@` (target at least as wide as the source, C13).
+fn From_@T@__from(int__: @T@) -> /*@{*/(r: /*}@*/Self/*@{*/)/*}@*/
+    /*@{*/ requires bn_wf(N), Self::bn_m() > int__ as int
+    ensures r@ == int__ as int /*}@*/
 {
     let UINT_BITS: usize = @T@::BITS as usize;
-    let mut out = $BUint::ZERO();
+    let mut out = Self::ZERO();
     let mut i = 0;
     /*@{*/ proof { lemma2_to64(); lemma_small_mod(0, 1); assert(int__ as int % 1 == 0); } /*}@*/
     while i << crate::digit::$D::BIT_SHIFT < UINT_BITS
-        /*@{*/ invariant UINT_BITS == @TB@, bn_wf(N), i * $DB <= @TB@ + $DB, i <= @TB@,
+        /*@{*/ invariant UINT_BITS == @TB@, bn_wf(N), i * $DB <= @TB@ + $DB, i <= @TB@, bn_bp(N as nat) > int__ as int,
             forall|j: int| i <= j < N ==> out.digits[j] == 0,
             bn_val(out.digits@, N as nat) == int__ as int % pow2((i * $DB) as nat) as int
         decreases @TB@ + $DB - i * $DB /*}@*/
@@ -347,22 +350,19 @@ fn FromPrimitive__from_@T@(int__: @T@) -> /*@{*/(r: /*}@*/Option<Self>/*@{*/)/*}
             if d == 0 { assert(d as int * p == 0) by (nonlinear_arith) requires d == 0; }
         } /*}@*/
         if d != 0 {
-            if i < N {
-                /*@{*/ proof {
-                    bn_lemma_val_update(out.digits@, i as int, d, N as nat);
-                    assert(out.digits[i as int] as int * bn_bp(i as nat) == 0) by (nonlinear_arith) requires out.digits[i as int] == 0;
-                } /*}@*/
-                out.digits[i] = d;
-            } else {
-                /*@{*/ proof {
+            /*@{*/ proof {
+                if i >= N {
                     // int__ >= 2^(i*DB) * d >= bp(i) >= bp(N)
                     assert((d as int) * p >= p) by (nonlinear_arith) requires d >= 1, p > 0;
                     lemma_pow2_pos(((i + 1) * $DB) as nat);
                     bn_lemma_convert_mod_le(int__ as int, pow2(((i + 1) * $DB) as nat) as int);
                     if i > N { lemma_pow_increases(bn_base() as nat, N as nat, i as nat); }
-                } /*}@*/
-                return None;
-            }
+                    assert(false);
+                }
+                bn_lemma_val_update(out.digits@, i as int, d, N as nat);
+                assert(out.digits[i as int] as int * bn_bp(i as nat) == 0) by (nonlinear_arith) requires out.digits[i as int] == 0;
+            } /*}@*/
+            out.digits[i] = d;
         }
         i += 1;
     }
@@ -371,9 +371,8 @@ fn FromPrimitive__from_@T@(int__: @T@) -> /*@{*/(r: /*}@*/Option<Self>/*@{*/)/*}
         bn_lemma_convert_pow2_@TB@();
         if i * $DB > @TB@ { lemma_pow2_strictly_increases(@TB@, (i * $DB) as nat); }
         lemma_small_mod(int__ as nat, pow2((i * $DB) as nat));
-        bn_lemma_val_upto_bound(out.digits@, N as nat);
     } /*}@*/
-    Some(out)
+    out
 }
 """
 
@@ -739,53 +738,53 @@ pub proof fn bn_lemma_convert_sshr_@T@(n: @T@, s: @U@)
 """
 
 BI_FROM_S = r"""
-//! fn impl(FromPrimitivefor$BInt<N>)::from_@T@ [ext_trait]
-fn FromPrimitive__from_@T@(n: @T@) -> /*@{*/(r: /*}@*/Option<Self>/*@{*/)/*}@*/
-    /*@{*/ requires bn_wf(N)
-    ensures (r is Some) == (-Self::bn_m() <= 2 * (n as int) && Self::bn_m() > 2 * (n as int)), r matches Some(v) ==> v@ == n as int /*}@*/
+//! fn impl(From<@T@>for$BInt<N>)::from [ext_trait=From_@T@]
+// Every digit index i with i * $DB < @TB@ is written unchecked: the impl panics (index out of bounds) exactly when
+// N * $DB < @TB@, for every argument.  `N * $DB >= @TB@` (target at least as wide as the source, C13) is the weakest
+// precondition.
+fn From_@T@__from(int__: @T@) -> /*@{*/(r: /*}@*/Self/*@{*/)/*}@*/
+    /*@{*/ requires bn_wf(N), N * $DB >= @TB@
+    ensures r@ == int__ as int /*}@*/
 {
-    let INT_BITS: usize = <@T@>::BITS as usize;
-    let initial_digit = if n.is_negative() {
-        $D::MAX
+    /*@{*/ proof {
+        bn_lemma_bp_pos(N as nat);
+        // the (unnamed) value of Self::ZERO is 0
+        assert forall|z: Seq<$D>| bn_val(z, N as nat) == 0 implies #[trigger] bn_sval(z, N as nat) == 0 by { bn_lemma_sval_twos(z, N as nat); }
+    } /*}@*/
+    let mut out = if int__.is_negative() {
+        !Self::ZERO()
     } else {
-        $D::MIN
+        Self::ZERO()
     };
-    let mut out = Self::from_bits($BUint::from_digits([initial_digit; N]));
     let mut i = 0;
-    /*@{*/ let ghost nn = n as int;
+    /*@{*/ let ghost nn = int__ as int;
     let ghost mm = Self::bn_m();
-    proof { bn_lemma_bp_pos(N as nat); } /*}@*/
-    while i << crate::digit::$D::BIT_SHIFT < INT_BITS
-        /*@{*/ invariant INT_BITS == @TB@, bn_wf(N), i * $DB <= @TB@ + $DB, i <= @TB@, nn == n as int, mm == bn_bp(N as nat), mm > 0,
+    let ghost initial_digit: $D = if 0 > nn { $DMAX$D } else { 0$D };
+    proof {
+        bn_lemma_bp_pos(N as nat);
+        bn_lemma_sval_twos(out.bits.digits@, N as nat);
+        if 0 > nn { bn_lemma_val_upto_bound(out.bits.digits@, N as nat); bn_lemma_convert_all_max(out.bits.digits@, N as nat); }
+    } /*}@*/
+    while i << crate::digit::$D::BIT_SHIFT < @T@::BITS as usize
+        /*@{*/ invariant bn_wf(N), N * $DB >= @TB@, i * $DB <= @TB@ + $DB, i <= @TB@, nn == int__ as int, mm == bn_bp(N as nat), mm > 0,
             initial_digit == (if 0 > nn { $DMAX$D } else { 0$D }),
             forall|j: int| 0 <= j < N && j < i ==> out.bits.digits[j] as int == bn_convert_tcd(nn, j),
-            forall|j: int| i <= j < N ==> out.bits.digits[j] == initial_digit,
-            forall|j: int| N <= j < i ==> bn_convert_tcd(nn, j) == initial_digit as int
+            forall|j: int| i <= j < N ==> out.bits.digits[j] == initial_digit
         decreases @TB@ + $DB - i * $DB /*}@*/
     {
-        let d = (n >> (i << crate::digit::$D::BIT_SHIFT)) as $D;
+        let d = (int__ >> (i << crate::digit::$D::BIT_SHIFT)) as $D;
         /*@{*/ proof {
             vstd::bits::lemma_usize_shl_is_mul(i, ${LOGDB}usize);
-            bn_lemma_convert_sshr_@T@(n, (i * $DB) as @U@);
-            bn_lemma_convert_strunc_@T@(n >> ((i * $DB) as @U@));
+            bn_lemma_convert_sshr_@T@(int__, (i * $DB) as @U@);
+            bn_lemma_convert_strunc_@T@(int__ >> ((i * $DB) as @U@));
             bn_lemma_bits_bp_pow2(i as nat);
             bn_lemma_bits_pow2_db();
             assert($DB * i == i * $DB) by (nonlinear_arith);
             assert(d as int == bn_convert_tcd(nn, i as int));
+            // i * DB < TB <= N * DB
+            assert(i < N) by (nonlinear_arith) requires i * $DB < @TB@, N * $DB >= @TB@;
         } /*}@*/
-        if d != initial_digit {
-            if i < N {
-                out.bits.digits[i] = d;
-            } else {
-                /*@{*/ proof {
-                    if -mm <= 2 * nn && mm > 2 * nn {
-                        if i > N { lemma_pow_increases(bn_base() as nat, N as nat, i as nat); }
-                        bn_lemma_convert_tcd_small(nn, i as nat);
-                    }
-                } /*}@*/
-                return None;
-            }
-        }
+        out.bits.digits[i] = d;
         i += 1;
     }
     /*@{*/ proof {
@@ -794,7 +793,7 @@ fn FromPrimitive__from_@T@(n: @T@) -> /*@{*/(r: /*}@*/Option<Self>/*@{*/)/*}@*/
         bn_lemma_bits_bp_pow2(i as nat);
         assert($DB * i == i * $DB) by (nonlinear_arith);
         if i * $DB > @TB@ { lemma_pow2_strictly_increases(@TB@, (i * $DB) as nat); }
-        // |n| < 2^TB <= bp(i): every digit from i up is the sign padding
+        // |int| < 2^TB <= bp(i): every digit from i up is the sign padding
         let ds = out.bits.digits@;
         assert forall|j: int| 0 <= j < N implies ds[j] as int == bn_convert_tcd(nn, j) by {
             if j >= i {
@@ -803,23 +802,22 @@ fn FromPrimitive__from_@T@(n: @T@) -> /*@{*/(r: /*}@*/Option<Self>/*@{*/)/*}@*/
             }
         }
         bn_lemma_convert_tcd_val(nn, ds, N as nat);
-        if i >= N {
-            bn_lemma_convert_tcd_small(nn, i as nat);
-            bn_lemma_convert_tcd_down(nn, N as nat, i as nat);
+        // -bp(N)/2 <= int < bp(N)/2: 2 * |int| <= 2^TB <= bp(N)
+        bn_lemma_bits_bp_pow2(N as nat);
+        assert($DB * N == N * $DB) by (nonlinear_arith);
+        if N * $DB > @TB@ { lemma_pow2_strictly_increases(@TB@, (N * $DB) as nat); }
+        assert(mm >= pow2(@TB@));
+        assert(-mm <= 2 * nn && mm > 2 * nn);
+        // nn mod mm
+        if 0 > nn {
+            assert(nn == mm * (-1) + (nn + mm));
+            lemma_fundamental_div_mod_converse(nn, mm, -1, nn + mm);
         } else {
-            lemma_pow_increases(bn_base() as nat, i as nat, N as nat);
-            bn_lemma_convert_tcd_small(nn, N as nat);
+            lemma_small_mod(nn as nat, mm as nat);
         }
-        lemma_fundamental_div_mod(nn, mm);
-        lemma_mod_bound(nn, mm);
         bn_lemma_sval_twos(ds, N as nat);
-        assert(mm * (-1) == -mm);
-        assert(mm * 0 == 0);
     } /*}@*/
-    if n.is_negative() != out.is_negative() {
-        return None;
-    }
-    Some(out)
+    out
 }
 """
 
@@ -844,6 +842,99 @@ pub proof fn bn_lemma_convert_zero_digits(d: Seq<$D>, n: nat)
     assert forall|j: int| 0 <= j < n implies d[j] == 0 by {
         if d[j] != 0 { bn_lemma_val_pos(d, n, j); bn_lemma_bp_pos(j as nat); }
     }
+}
+"""
+
+BU_TRYFROM_S = r"""
+//! fn impl(TryFrom<@T@>for$BUint<N>)::try_from [ext_trait=TryFrom_@T@ extcall=Self::from:From_@U@__from]
+// Err exactly for negative arguments.  A non-negative argument goes through `From<@U@>`, which panics (index out of
+// bounds) when the value does not fit: the precondition is the weakest one, implied by N * $DB >= @TB@ (C13: target at
+// least as wide as the source).
+fn TryFrom_@T@__try_from(int__: @T@) -> /*@{*/(r: /*}@*/Result<Self, TryFromIntError>/*@{*/)/*}@*/
+    /*@{*/ requires bn_wf(N), int__ >= 0 ==> Self::bn_m() > int__ as int
+    ensures r.is_ok() == (int__ >= 0), (r matches Ok(v) ==> v@ == int__ as int) /*}@*/
+{
+    if int__.is_negative() {
+        return Err(TryFromIntError(()));
+    }
+    let bits = int__ as @U@;
+    /*@{*/ proof { bn_lemma_convert_sign_@T@(int__); } /*}@*/
+    Ok(Self::From_@U@__from(bits))
+}
+"""
+
+BI_FROM_U = r"""
+//! fn impl(From<@T@>for$BInt<N>)::from [ext_trait=From_@T@ extcall=$BUint::from:$BUint::From_@T@__from]
+// KNOWN FINDING (recorded): this impl reinterprets the bit pattern of the unsigned value.  For a target of exactly the
+// source's width the result is negative for int >= 2^(BITS-1) (BIntD8::<1>::from(128u8) == -128), so `r@ == int` is
+// NOT claimed in general: the contract states what is true of the code -- the bit pattern is the value, and the
+// numeric value is preserved when it is below 2^(BITS-1) (in particular for every target wider than the source).
+// The precondition is that of `From<@T@> for $BUint` (no index panic).
+fn From_@T@__from(int__: @T@) -> /*@{*/(r: /*}@*/Self/*@{*/)/*}@*/
+    /*@{*/ requires bn_wf(N), Self::bn_m() > int__ as int
+    ensures r.bits@ == int__ as int, Self::bn_m() > 2 * (int__ as int) ==> r@ == int__ as int /*}@*/
+{
+    let out = Self::from_bits($BUint::From_@T@__from(int__));
+    /*@{*/ proof { bn_lemma_sval_twos(out.bits.digits@, N as nat); } /*}@*/
+    out
+}
+"""
+
+NOT_I = r"""
+//! raw bn_convert_impl_imports [module=bn_convert_impls]
+#[allow(unused_imports)] use core::ops::Not;
+//! spec bn_convert_not_spec
+// `!Self::ZERO` in `From<iN> for $BInt`: this unit's own (scoped) contract for the operator impl, as unit `random` does
+// for Sub/Rem (the ops_* units, which own the operator impls, are scoped to themselves)
+impl<const N: usize> vstd::std_specs::ops::NotSpecImpl for $BInt<N> {
+    open spec fn obeys_not_spec() -> bool { false }
+    open spec fn not_req(self) -> bool { bn_wf(N) }
+    open spec fn not_spec(self) -> $BInt<N> { self }
+}
+//! fn impl(Notfor$BInt<N>)::not [module=bn_convert_impls]
+fn not(self) -> /*@{*/(r: /*}@*/Self/*@{*/)/*}@*/
+    /*@{*/ ensures r@ == -self@ - 1 /*}@*/
+{
+    Self::not(self)
+}
+//! proof bn_lemma_convert_all_max
+// the bit pattern of -1: every digit is MAX
+pub proof fn bn_lemma_convert_all_max(ds: Seq<$D>, n: nat)
+    requires bn_val(ds, n) == bn_bp(n) - 1
+    ensures forall|j: int| 0 <= j < n ==> ds[j] == $DMAX$D
+{
+    let e = Seq::new(n, |k: int| !ds[k]);
+    bn_lemma_bits_compl_val(ds, e, n);
+    bn_lemma_convert_zero_digits(e, n);
+    assert forall|j: int| 0 <= j < n implies ds[j] == $DMAX$D by {
+        assert(e[j] == 0);
+        bn_lemma_bits_not_val(ds[j]);
+    }
+}
+"""
+
+FWD = r"""
+//! fn impl(From<bool>for$BUint<N>)::from [ext_trait=From_bool]
+fn From_bool__from(small: bool) -> /*@{*/(r: /*}@*/Self/*@{*/)/*}@*/
+    /*@{*/ requires N >= 1
+    ensures r@ == (if small { 1int } else { 0int }) /*}@*/
+{
+    Self::cast_from(small)
+}
+//! fn impl(From<char>for$BUint<N>)::from [ext_trait=From_char]
+// `cast_from` wraps: the value is exact for every target that can hold the code point (N * $DB >= 21 suffices; C13)
+fn From_char__from(c: char) -> /*@{*/(r: /*}@*/Self/*@{*/)/*}@*/
+    /*@{*/ ensures r@ == (c as u32) as int % Self::bn_m(), Self::bn_m() > (c as u32) as int ==> r@ == (c as u32) as int /*}@*/
+{
+    /*@{*/ proof { if Self::bn_m() > (c as u32) as int { lemma_small_mod((c as u32) as nat, Self::bn_m() as nat); } } /*}@*/
+    Self::cast_from(c)
+}
+//! fn impl(From<bool>for$BInt<N>)::from [ext_trait=From_bool]
+fn From_bool__from(small: bool) -> /*@{*/(r: /*}@*/Self/*@{*/)/*}@*/
+    /*@{*/ requires N >= 1
+    ensures r@ == (if small { 1int } else { 0int }), r.bits@ == (if small { 1int } else { 0int }) /*}@*/
+{
+    Self::cast_from(small)
 }
 """
 
@@ -906,5 +997,29 @@ for T, U, TB in ST:
     if want('bi_to_' + T):
         call = 'bn_lemma_convert_narrow2_%s(int__.bits.digits[0]);' % T if T != 'i128' else ''
         w(inst(BI_TO_S, T, TB, U).replace('@NARROW2CALL@', call))
+# ---- items 1, 2: From<uN> / TryFrom<iN> for $BUint
+w(MOD_LE)
+w(ZERO_DIGITS)
+for T, TB in UT:
+    w(inst(LEMMAS_FROM_U, T, TB))
+for T, TB in UT:
+    if want('bu_from_' + T):
+        w(inst(BU_FROM_U, T, TB))
+for T, U, TB in ST:
+    if want('bu_from_' + T):
+        w(inst(BU_TRYFROM_S, T, TB, U))
+# ---- items 4, 5: From<iN> / From<uN> for $BInt
+w(TCD)
+w(NOT_I)
+for T, U, TB in ST:
+    w(inst(LEMMAS_FROM_S, T, TB, U))
+for T, U, TB in ST:
+    if want('bi_from_' + T):
+        w(inst(BI_FROM_S, T, TB, U))
+for T, TB in UT:
+    if want('bi_from_' + T):
+        w(inst(BI_FROM_U, T, TB))
+# ---- item 7: forwarders to cast_from
+w(FWD)
 root = os.path.dirname(os.path.dirname(os.path.abspath(__file__)))
 open(os.path.join(root, 'units', 'convert.vrs'), 'w').write(OUT.getvalue())
